@@ -40,13 +40,13 @@ def sources():
     return rebind.source_hash(*FUNCS)
 
 
-def body(H, P, tracers, rsd, okind, ranks, nt, keyp='hod'):
+def body(H, P, tracers, rsd, okind, ranks, nt, keyp='hod', defaults=False):
     c = ctx()
-    case = dict(H=H, P=P, tracers=list(tracers), rsd=rsd, observer=okind, ranks=ranks, Nthread=nt)
+    case = dict(H=H, P=P, tracers=list(tracers), rsd=rsd, observer=okind, ranks=ranks, Nthread=nt, defaults=defaults)
     c.extra['case'] = case
     c.extra['keyprefix'] = keyp + ':'
     c.log_access = True
-    hd, pd, tr, params, out = hodlib.run_gen_gals(c, H, P, tracers, rsd, okind, ranks, nt)
+    hd, pd, tr, params, out = hodlib.run_gen_gals(c, H, P, tracers, rsd, okind, ranks, nt, drop_optional=defaults)
     cat, keep = hodlib.expected_catalogue(c, hd, pd, tr, params, tracers, rsd, ranks, H, P)
     c.extra['sample'] = dict(case, central_class=keep, rows={t: [len(cat[t]['cent']), len(cat[t]['sat'])] for t in tracers})
     hodlib.check_catalogue(c, out, cat, params, tracers, rsd, keyp)
@@ -117,6 +117,9 @@ def items(tier, seed):
     for tr in (('LRG',), ('LRG', 'ELG'), ('ELG', 'QSO')):
         out.append(dict(name=f'H2P1/{"+".join(tr)}', kind='hod', H=2, P=1, tracers=tr, rsd=False, ok='box', ranks=True, nt=2))
         out.append(dict(name=f'H1P2/{"+".join(tr)}', kind='hod', H=1, P=2, tracers=tr, rsd=False, ok='box', ranks=False, nt=2))
+    # the optional keys (assembly bias, incompleteness, conformity, ...) left out: the generator's defaults, read from its current source
+    for tr in (('LRG',), ('ELG',), ('LRG', 'ELG', 'QSO')):
+        out.append(dict(name=f'defaults/H1P1/{"+".join(tr)}', kind='hod', H=1, P=1, tracers=tr, rsd=False, ok='box', ranks=False, nt=1, defaults=True))
     # centrals-then-satellites assembly: fast_concatenate for every small (centrals, satellites, thread) triple -- the
     # proportional thread split only goes wrong for particular ratios (obligation shared with C10, where it is defined)
     nmax, tmax = (4, 4) if tier == 'quick' else (6, 8)
@@ -137,7 +140,7 @@ def run(item):
         return common.run_paths(body_nested)[0]
     if item['kind'] == 'occupation':
         return common.run_paths(body_occupation, cov_funcs=FUNCS)[0]
-    return common.run_paths(lambda: body(item['H'], item['P'], tuple(item['tracers']), item['rsd'], item['ok'], item['ranks'], item['nt']),
+    return common.run_paths(lambda: body(item['H'], item['P'], tuple(item['tracers']), item['rsd'], item['ok'], item['ranks'], item['nt'], defaults=item.get('defaults', False)),
                             cov_funcs=FUNCS, max_paths=60000)[0]
 
 
